@@ -11,6 +11,7 @@ CONSTANTS
   MaxClient = 1
   MaxCrash = 2
   MaxHalf = 1
+  MaxCfg = 0
   MaxRead = 0
   MaxSnap = 0
   SnapSize = 1
